@@ -7,7 +7,7 @@ Template language (lines starting with //@@ at top level, //@ inside an fn/type 
   //@@ fn <src file> | <scope header or -> | <fn name> [props=C01,C10] [sigcheck=off]
     //@ header              (verus attributes + signature with named return + requires/ensures)
     //@ drop                (one regex per line: whole statements starting with a match are removed; R1)
-    //@ rewrite [n=K]       (lines `FROM ==> TO`, literal, must match exactly K times (default 1); R3-R6)
+    //@ rewrite [n=K]       (lines `FROM ==> TO`, literal; `[n=K] FROM ==> TO` demands exactly K matches, default any; R3-R6)
     //@ rewrite-re [n=K]    (same with python regex FROM)
     //@ loop K              (invariant / decreases text for the K-th loop of the body)
     //@ loop-start K        (text inserted as first statement(s) of the K-th loop body)
@@ -393,7 +393,7 @@ def apply_fn_block(blk, unit_state):
             frm, to = ln.split('==>', 1)
             frm = frm.strip()
             to = to.strip()
-            want = o.get('n', '1')
+            want = o.get('n', '*')
             mline = re.match(r'^\[n=(\d+|\*|\+)\]\s*(.*)$', frm)
             if mline:
                 want = mline.group(1)
